@@ -215,3 +215,8 @@ pub fn c07_u(du: f32, ff: f32, uf: f32, ug: f32) -> Option<f32> {
 pub fn c06_u(r: f32, rsi: f32) -> Option<f32> {
     Some(1.0 / (r + rsi))
 }
+
+// ---- C09: transposed digits in the pressure-conversion constant
+pub fn c09_n50(a: f32, c: f32, w: f32, v: f32) -> f32 {
+    0.692 * (a * c + w) / v
+}
